@@ -1,7 +1,7 @@
 #!/bin/bash
 # run_all.sh quick|thorough : every registered check in turn, one summary line each
 tier=${1:-quick}
-cd /verif
+cd "$(dirname "$0")/.."
 for p in C01 C02 C03 C05 C06 C07 C08 C09 C10 C11 C13 C16 C17 C18; do
   s=$(date +%s)
   out=$(./check $p $tier 2>&1 | grep -v WARNING)
